@@ -139,6 +139,22 @@ def gen_pipeline_case(rng, i, c03_bias=False, many_iters=False):
                 X[r, :] = 0.0
                 X[r, rng.randrange(X.shape[1])] = 3.0
                 label.append('one-gene-cell')
+    if normalization == 'raw' and i % 6 == 2:
+        # 'raw' rows that are not counts: non-negative fractions whose rows sum
+        # to LESS THAN 1 (library-size normalised abundances on a panel); CPM
+        # divides by the row sum whatever its size
+        for r in range(X.shape[0]):
+            tot = X[r].sum()
+            if tot > 0:
+                X[r, :] = X[r, :] / tot * rng.choice([0.9, 0.5, 0.03, 1e-3])
+        label.append('raw-rows-sum-lt-1')
+    if normalization == 'raw' and i % 6 == 5:
+        # empty cells (no count at all) among the others: CPM 0, log2(1+0) = 0,
+        # a constant row -> correlation 0 with every leaf (never NaN)
+        for r in range(X.shape[0]):
+            if rng.random() < 0.4 or r == 0:
+                X[r, :] = 0.0
+        label.append('raw-empty-cells')
     sparse = (i % 7 == 5) and normalization == 'raw'
     if sparse:
         # sparse cells: zero on most genes, so that some drawn subsets see a
